@@ -10,7 +10,8 @@ import pandas as pd
 
 from common import R
 
-LEAN_MODULES = ["PyomaVerif.Props.C19", "PyomaVerif.Props.C19Geo2", "PyomaVerif.Props.C19Plot", "PyomaVerif.Mutants.C19"]
+LEAN_MODULES = ["PyomaVerif.Props.C19", "PyomaVerif.Props.C19Geo2", "PyomaVerif.Props.C19Plot", "PyomaVerif.Mutants.C19",
+                "PyomaVerif.Mutants.C19Geo2"]
 THEOREMS = [
     "PV.C19.C19_flatten_single",
     "PV.C19.C19_flatten_multi",
@@ -52,6 +53,7 @@ THEOREMS = [
     "PV.C19.C19_displace_default_sign",
     "PV.C19.C19_mapCell_not_nan",
     "PV.C19.C19_map_zero_checked",
+    "PV.C19.C19_map_sensor_checked",
     "PV.C19.C19_map_cstr_aligned",
     "PV.C19.C19_map_cstr_labelwise",
     "PV.C19.C19_dot_scale",
@@ -69,6 +71,11 @@ THEOREMS = [
     "PV.C19M.shift_bgnodes_fails",
     "PV.C19M.positional_align_fails",
     "PV.C19M.refcount_flatten_fails",
+    "PV.C19M.lazy_reorder_cstr_fails",
+    "PV.C19M.zeros_default_sign_fails",
+    "PV.C19M.sign_on_coord_displace_fails",
+    "PV.C19M.scale_twice_fails",
+    "PV.C19M.table_order_arrows_fails",
 ]
 RULE = (
     "correspondence: generated sheet dictionaries (1..12 sensor names, single setup or 2..4 setups with 1..3 references, "
@@ -76,7 +83,10 @@ RULE = (
     "single-fault corruption, all name forms) sent as exact rationals / strings to the Lean model and to check_on_geo1/2, "
     "flatten_sns_names, def_geo1/def_geo2 (valid sets in every argument form AND the same single faults, incl. DataFrame "
     "directions with renamed / re-ordered row labels and mapping / sign frames labelled in another order), dfphi_map_func: same exception class or the same tables cell by cell "
-    "(numbers exactly; mapped values and displacements at 1e-12). oracle: the statement with plain dict look-ups on the "
+    "(numbers exactly; mapped values and displacements at 1e-12); the display pipeline def_geo1 + plot_mode_geo1 / def_geo2 + "
+    "plot_mode_geo2_mpl against the model's defPlotGeo1 / defPlotGeo2: start and end point of every arrow, every displaced point, as "
+    "held by the Agg artists (every argument form, scaleF in {0, 0.5, 1, 2, 5, 10, -1.5}, colour fixed or 'cmap', background present "
+    "or absent, shapes of another length and single table faults; 1e-11). oracle: the statement with plain dict look-ups on the "
     "generating spec, plus Agg artists of plot_mode_geo1 / plot_mode_geo2_mpl; every function is also used twice on the "
     "caller's own (un-copied) tables, geometry 1 and 2 are defined from shared tables on two setup objects, and the caller's "
     "tables / arrays are monitored for modification. distinct = distinct (function, shape/"
@@ -90,6 +100,8 @@ ASSUMPTIONS = [
     "sheets are DataFrames as read_excel(index_col=0) delivers them (openpyxl absent: frames are built directly)",
     "sensor / constraint names are strings other than '0', '0.0', 'interp', 'nan' that do not parse as floats; numeric mapping cells are 0",
     "column labels of one table are distinct; coordinate row labels are distinct in the permutation theorems",
+    "display: coordinate / direction / sign cells are numbers or NaN; the mode shape has one real component per sensor (a shape of another length: both lengths >= 2, numpy broadcasting of a length-1 axis is not modelled)",
+    "label-wise constraint combination (C19_map_cstr_labelwise): sensor names distinct, constraint sheet rectangular with distinct row and column labels",
 ]
 
 NAN = float("nan")
